@@ -31,6 +31,7 @@ LeafSeq(t) ==
   CASE t.c = "Ten" -> <<t>>
     [] t.c = "Bin" -> LeafSeq(t.l) \o LeafSeq(t.r)
     [] t.c = "Red" -> LeafSeq(t.arg)
+    [] t.c = "Sub" -> LeafSeq(t.arg)
     [] t.c = "Con" -> LET RECURSIVE go(_)
                           go(k) == IF k > Len(t.terms) THEN <<>> ELSE LeafSeq(t.terms[k]) \o go(k + 1)
                       IN go(1)
@@ -41,6 +42,11 @@ SumProductShaped(t) ==
   CASE t.c \in {"Ten", "Num"} -> TRUE
     [] t.c = "Bin" -> t.op.n \in {APlus, ATimes} /\ SumProductShaped(t.l) /\ SumProductShaped(t.r)
     [] t.c = "Red" -> t.op = APlus /\ SumProductShaped(t.arg)
+    [] t.c = "Sub" ->    \* renamings, slices and constant indices of a sum-product expression
+         /\ t.arg.c = "Ten"        \* "... of the leaves": substitutions sit directly on a leaf
+         /\ \A k \in 1..Len(t.subs) :
+              /\ t.subs[k][2].c \in {"Var", "Slice", "Num"}
+              /\ \E j \in 1..Len(t.arg.ins) : t.arg.ins[j][1] = t.subs[k][1]
     [] t.c = "Con" -> /\ t.red \in {APlus, "nullop"} /\ t.bin \in {ATimes, APlus}
                       /\ \A k \in 1..Len(t.terms) : SumProductShaped(t.terms[k])
     [] OTHER -> FALSE
@@ -75,6 +81,10 @@ DPrimed(t, L) ==
           THEN BinT(APlus, BinT(ATimes, DPrimed(t.l, L), t.r), BinT(ATimes, t.l, DPrimed(t.r, L)))
           ELSE BinT(APlus, DPrimed(t.l, L), DPrimed(t.r, L)))
     [] t.c = "Red" -> [c |-> "Red", op |-> t.op, arg |-> DPrimed(t.arg, L), vars |-> t.vars]
+    \* chain rule through an index substitution: the primed names are not substituted, so the
+    \* indicator [i = i_p] becomes [sigma(i) = i_p]; cells of L that sigma never reaches get
+    \* the unit of plus (what Scatter fills in)
+    [] t.c = "Sub" -> [c |-> "Sub", arg |-> DPrimed(t.arg, L), subs |-> t.subs]
     [] t.c = "Con" ->
          (LET body == FoldBin(t.bin, t.terms) IN
           IF t.red = "nullop" \/ t.vars = <<>> THEN DPrimed(body, L)
@@ -128,6 +138,7 @@ RECURSIVE BoundNames(_)
 BoundNames(t) ==
   CASE t.c = "Bin" -> BoundNames(t.l) \cup BoundNames(t.r)
     [] t.c = "Red" -> Names(t.vars) \cup BoundNames(t.arg)
+    [] t.c = "Sub" -> BoundNames(t.arg)
     [] t.c = "Con" -> Names(t.vars) \cup UNION {BoundNames(t.terms[k]) : k \in 1..Len(t.terms)}
     [] OTHER -> {}
 
@@ -136,11 +147,23 @@ BoundNames(t) ==
 \* "the derivative with respect to the leaf" is not a function of named inputs any more.
 NoShadow(t) == BoundNames(t) \cap Names(Last.ti) = {}
 
+RECURSIVE HasSubNode(_)
+HasSubNode(t) ==
+  CASE t.c = "Sub" -> TRUE
+    [] t.c = "Bin" -> HasSubNode(t.l) \/ HasSubNode(t.r)
+    [] t.c = "Red" -> HasSubNode(t.arg)
+    [] t.c = "Con" -> \E k \in 1..Len(t.terms) : HasSubNode(t.terms[k])
+    [] OTHER -> FALSE
+
+\* Through an index substitution funsor scatters the adjoint back and sums over EVERY variable
+\* the leaf does not mention, free inputs of the root included, whereas elsewhere the root's
+\* own inputs are kept; both readings of "the derivative" coincide for closed roots, so
+\* expressions with substitutions are emitted only when the root has no free input.
 EmitAdj ==
   (pool # <<>> /\ nops > 0) =>
     LET t == Strip(Last)
         ls == Dedupe(LeafSeq(t))
-    IN (SumProductShaped(t) /\ ls # <<>> /\ NoShadow(t)) =>
+    IN (SumProductShaped(t) /\ ls # <<>> /\ NoShadow(t) /\ (HasSubNode(t) => Last.ti = <<>>)) =>
        PrintT(ToJson([tag |-> Tag, plus |-> APlus, times |-> ATimes, t |-> t, exp |-> Project(Last),
                       adj |-> [k \in 1..Len(ls) |-> [leaf |-> ls[k], exp |-> ProjectA(Ann(DTerm(t, ls[k])))]]]))
 =============================================================================
